@@ -227,7 +227,7 @@ def real_inplace_update(maxseg, k, old, data, offset):
         pushed.append(d)
         segnum += 1
     new = segs[:p.starting_segment] + pushed + segs[p.end_segment + 1:]
-    return ("ok", p.segment_size, datalength, new, (p.starting_segment, p.end_segment))
+    return ("ok", p.segment_size, datalength, new, (p.starting_segment, p.end_segment), (ss, es))
 
 
 def flush_pool(ctx, pool, tag):
@@ -265,7 +265,7 @@ def pure_update_cases(ctx, pool):
                         ref[offset:offset + L] = data
                     want = None
                     if res[0] == "ok":
-                        _, sg, dl, segs, _ = res
+                        _, sg, dl, segs, _, fetched = res
                         got = b"".join(segs)
                         want = (sg, dl, [s + b"\x00" * (next_multiple(len(s), k) - len(s)) for s in segs])
                         if not inscope:
@@ -289,7 +289,11 @@ def pure_update_cases(ctx, pool):
                         w = "None" if want is None else "(Some (%s, %s, %s))" % (T.nat(want[0]), T.nat(want[1]), T.lst([T.bytes_(s) for s in want[2]]))
                         nofallback = "(match publish false %s %s %s with Some f => negb ((%s =? mf_len f) && (%s / mf_segsize f =? div_ceil (mf_len f) (mf_segsize f))) | None => false end)" % (
                             T.nat(maxseg), T.nat(k), T.bytes_(old), T.nat(offset), T.nat(offset))
-                        terms.append("(%s && upd_check %s %s %s %s %s %s)" % (nofallback, T.nat(maxseg), T.nat(k), T.bytes_(old), T.bytes_(data), T.nat(offset), w))
+                        fetch = "true"
+                        if res[0] == "ok" and offset + L > 0:      # which old segments _do_update_update asks for (segment -1 for an empty update at 0)
+                            fetch = "(Nat.eqb (%s / %s) %s && Nat.eqb (update_end_segment %s %s %s %s) %s)" % (
+                                T.nat(offset), T.nat(seg), T.nat(fetched[0]), T.nat(size), T.nat(seg), T.nat(offset), T.nat(L), T.nat(fetched[1]))
+                        terms.append("(%s && %s && upd_check %s %s %s %s %s %s)" % (nofallback, fetch, T.nat(maxseg), T.nat(k), T.bytes_(old), T.bytes_(data), T.nat(offset), w))
                     info.append(case)
     # thin the model comparison in the quick tier (the oracle above saw every case)
     if ctx.tier == "quick" and not ctx.search:
@@ -698,6 +702,21 @@ def grid_cases(ctx):
         ctx.count("ops", len(h["ops"]))
         ctx.count("reads", sum(1 for ev in events if ev[0] == "read"))
         ctx.count("in-place-updates", inplace)
+        # appends/updates that take the segment count across a power of two (block hash tree changes shape)
+        cur = len(h["init"])
+        for op in h["ops"]:
+            if op[0] == "overwrite":
+                cur = len(op[1])
+            elif op[0] == "modify":
+                cur = len(ref_modifier(op[1], bytes(cur)))
+            else:
+                new = max(cur, op[2] + len(op[1]))
+                a, b = div_ceil(cur, seg), div_ceil(new, seg)
+                if any(a <= p2 < b for p2 in (1, 2, 4, 8)):
+                    ctx.count("updates-crossing-a-power-of-two-segment-count:" + h["format"])
+                if new > cur:
+                    ctx.count("extending-updates")
+                cur = new
         ok = judge_history(ctx, h, events, "hist")
         if i < 2:
             ctx.sample({"format": h["format"], "k": h["k"], "segment_size": seg, "init_len": len(h["init"]),
